@@ -4,7 +4,7 @@
 From Coq Require Import String List Bool.
 From CF Require Import Model.Tables Model.TableSem Proofs.TableProofs Proofs.FactsDispatch Proofs.FactsSafeSlots.
 From CF Require Import Gen.GenExports Gen.GenSafe Gen.GenMacros Gen.GenDispatch.
-From CF Require Import Model.Exports Model.Safe Proofs.SafeSem.
+From CF Require Import Base.Mem Model.Prim Model.SimdApi Model.Kernels Model.Regs Model.Exports Model.Safe Proofs.SafeSem.
 Import ListNotations.
 
 (* The macro's early-return chain selects, for EVERY build configuration, every combination of predicate
@@ -60,6 +60,51 @@ Theorem C09_result :
       run_safe dispatch_chain rx exports safe_macros s f bc p debug DIMS v a b res
       = rx (key_export (s_ty s, allowed_backend x (s_ty s), k)) f debug DIMS v a b res.
 Proof. exact @safe_run_is_export_run. Qed.
+
+(* ... and, unfolding the export: an accepted safe call IS the kernel run on the register model of the selected slot's
+   back end with dims = len a - for all 19 kernels, integers and both float types - so every kernel-level theorem
+   (C02-C08) transfers to the safe API under every dispatch outcome. *)
+Theorem C09_safe_is_kernel_run_int :
+  forall s f bc p debug m sf k x,
+    In s safe_entries -> find_safe_macro safe_macros (s_macro s) = Some m -> safe_fn_of m f = Some sf ->
+    safe_kernel s = Some k -> select_chain dispatch_chain bc p (supplied_of sf) = Some x -> x <> SNeon ->
+    forall DIMS v a b res,
+      is_float (s_ty s) = false ->
+      let l := {| len_a := List.length a; len_b := List.length b; len_r := List.length res; len_dims := DIMS |} in
+      asserts_pass l (sf_asserts sf) = true ->
+      (debug = true -> asserts_pass l (sf_debug_asserts sf) = true) ->
+      exists R, int_ops (allowed_backend x (s_ty s)) (s_ty s) = Some R /\
+        run_safe dispatch_chain run_export_int exports safe_macros s f bc p debug DIMS v a b res
+        = xo (run_kernel R (int_math (is_signed (s_ty s)) (width (s_ty s))) k (List.length a) v (init_mem a b res)).
+Proof. exact safe_int_is_kernel_run. Qed.
+
+Theorem C09_safe_is_kernel_run_f32 :
+  forall s f bc p debug m sf k x,
+    In s safe_entries -> find_safe_macro safe_macros (s_macro s) = Some m -> safe_fn_of m f = Some sf ->
+    safe_kernel s = Some k -> select_chain dispatch_chain bc p (supplied_of sf) = Some x -> x <> SNeon ->
+    forall DIMS v a b res,
+      s_ty s = F32 ->
+      let l := {| len_a := List.length a; len_b := List.length b; len_r := List.length res; len_dims := DIMS |} in
+      asserts_pass l (sf_asserts sf) = true ->
+      (debug = true -> asserts_pass l (sf_debug_asserts sf) = true) ->
+      exists R, f32_ops (allowed_backend x F32) = Some R /\
+        run_safe dispatch_chain run_export_f32 exports safe_macros s f bc p debug DIMS v a b res
+        = xo (run_kernel R float_math k (List.length a) v (init_mem a b res)).
+Proof. exact safe_f32_is_kernel_run. Qed.
+
+Theorem C09_safe_is_kernel_run_f64 :
+  forall s f bc p debug m sf k x,
+    In s safe_entries -> find_safe_macro safe_macros (s_macro s) = Some m -> safe_fn_of m f = Some sf ->
+    safe_kernel s = Some k -> select_chain dispatch_chain bc p (supplied_of sf) = Some x -> x <> SNeon ->
+    forall DIMS v a b res,
+      s_ty s = F64 ->
+      let l := {| len_a := List.length a; len_b := List.length b; len_r := List.length res; len_dims := DIMS |} in
+      asserts_pass l (sf_asserts sf) = true ->
+      (debug = true -> asserts_pass l (sf_debug_asserts sf) = true) ->
+      exists R, f64_ops (allowed_backend x F64) = Some R /\
+        run_safe dispatch_chain run_export_f64 exports safe_macros s f bc p debug DIMS v a b res
+        = xo (run_kernel R float_math k (List.length a) v (init_mem a b res)).
+Proof. exact safe_f64_is_kernel_run. Qed.
 
 Example C09_nonvacuous :
   length safe_entries = 190 /\ length dispatch_chain = 5 /\
